@@ -38,7 +38,7 @@ func AlignStream[N Number](
 				// If this is not the first cluster
 
 				// Check if  the first item is magically aligned to the slot, return it
-				if firstItem.Timestamp == clusterTimestampClassifier {
+				if firstItem.Timestamp.Equal(clusterTimestampClassifier) {
 					return TsRecord[N]{
 						Value:     firstItem.Value,
 						Timestamp: clusterTimestampClassifier,
